@@ -187,17 +187,20 @@ func (m *PluginManager) Install(ctx context.Context, name string, constraint *se
 
 	newPluginDir := filepath.Join(getPluginDir(), repoSlug, fmt.Sprintf("octosql-plugin-%s", name), version.Number.String())
 
+	// The new version is prepared in a staging directory next to the plugins directory and only moved into place once it's complete,
+	// so that an interrupted installation never leaves a partially installed version that would be picked over a working one.
 	simhook.CrashPoint("install.begin")
-	if err := os.RemoveAll(newPluginDir); err != nil {
-		return fmt.Errorf("couldn't remove old plugin directory: %w", err)
+	stagingRootDir := filepath.Clean(getPluginDir()) + ".staging"
+	if err := os.MkdirAll(stagingRootDir, os.ModePerm); err != nil {
+		return fmt.Errorf("couldn't create plugins staging directory: %w", err)
 	}
-	simhook.CrashPoint("install.after_removeall")
-
-	if err := os.MkdirAll(newPluginDir, os.ModePerm); err != nil {
-		return fmt.Errorf("couldn't create plugins directory: %w", err)
+	stagingDir, err := os.MkdirTemp(stagingRootDir, fmt.Sprintf("octosql-plugin-%s-%s-", name, version.Number.String()))
+	if err != nil {
+		return fmt.Errorf("couldn't create plugin staging directory: %w", err)
 	}
+	defer os.RemoveAll(stagingDir)
 	simhook.CrashPoint("install.after_mkdir")
-	archiveFilePath := filepath.Join(newPluginDir, "archive.tar.gz")
+	archiveFilePath := filepath.Join(stagingDir, "archive.tar.gz")
 
 	// Anonymous function to take care of defers before we move forward.
 	err = func() error {
@@ -229,7 +232,7 @@ func (m *PluginManager) Install(ctx context.Context, name string, constraint *se
 	}
 	simhook.CrashPoint("install.after_download")
 
-	if err := archiver.NewTarGz().Unarchive(archiveFilePath, newPluginDir); err != nil {
+	if err := archiver.NewTarGz().Unarchive(archiveFilePath, stagingDir); err != nil {
 		return fmt.Errorf("couldn't unarchive plugin archive: %w", err)
 	}
 	simhook.CrashPoint("install.after_unarchive")
@@ -239,10 +242,44 @@ func (m *PluginManager) Install(ctx context.Context, name string, constraint *se
 	}
 	simhook.CrashPoint("install.after_remove_archive")
 
+	if err := moveIntoPlace(stagingDir, newPluginDir); err != nil {
+		return fmt.Errorf("couldn't move plugin into the plugins directory: %w", err)
+	}
+
 	if err := registerFileExtensions(plugin.Name, plugin.FileExtensions); err != nil {
 		return fmt.Errorf("couldn't register file extensions: %w", err)
 	}
 	simhook.CrashPoint("install.after_register_extensions")
 
 	return nil
+}
+
+// moveIntoPlace moves a fully prepared plugin version directory to its final location.
+// A new version directory appears atomically. If the version is already installed, its files are replaced one by one,
+// each replacement being atomic, so that the version stays usable at every point in time.
+func moveIntoPlace(stagingDir, targetDir string) error {
+	if err := os.MkdirAll(filepath.Dir(targetDir), os.ModePerm); err != nil {
+		return fmt.Errorf("couldn't create plugin directory: %w", err)
+	}
+	if _, err := os.Stat(targetDir); os.IsNotExist(err) {
+		if err := os.Rename(stagingDir, targetDir); err != nil {
+			return fmt.Errorf("couldn't rename plugin directory: %w", err)
+		}
+		return nil
+	} else if err != nil {
+		return fmt.Errorf("couldn't check if plugin version is already installed: %w", err)
+	}
+	return filepath.Walk(stagingDir, func(path string, info os.FileInfo, err error) error {
+		if err != nil {
+			return err
+		}
+		relative, err := filepath.Rel(stagingDir, path)
+		if err != nil {
+			return err
+		}
+		if info.IsDir() {
+			return os.MkdirAll(filepath.Join(targetDir, relative), os.ModePerm)
+		}
+		return os.Rename(path, filepath.Join(targetDir, relative))
+	})
 }
